@@ -209,8 +209,8 @@ def spec(name, s):
 def accessor_laws(run, f):
     methods = {}
     for d, fn in f.fns.items():
-        if fn.get("impl_self") is not None and f.ty(fn["impl_self"]).is_adt(AR) and not fn.get("impl_trait"):
-            methods[fn["name"]] = d
+        if fn.get("impl_self") is not None and f.ty(fn["impl_self"]).is_adt(AR) and not fn.get("impl_trait") and fn.get("vis") == "Public":
+            methods[fn["name"]] = d      # (private helpers are inlined into the public methods: no law of their own)
     # the From conversion into (Option<T>, Option<E>)
     for d, fn in f.fns.items():
         if fn["name"] == "from" and fn.get("impl_trait") == "std::convert::From" and fn["inputs"] and f.ty(fn["inputs"][0]).is_adt(AR):
